@@ -319,25 +319,31 @@ class ProcessCapabilityExchange():
 
 
     def process_request(self):
+        #: Each mandatory AVP counts once, however often it occurs: a second 
+        #: Host-IP-Address AVP (allowed by the CER ABNF) must not make up for 
+        #: an Origin-Host or Origin-Realm AVP which failed its validation.
+        mandatory_avps = set()
+
         for avp in self.message.avps:
             if ProcessDiameterMessage.is_valid_origin_host_avp(avp, self.connection):
-                self.checklist_mandatory_avps += 1
+                mandatory_avps.add(ORIGIN_HOST_AVP_CODE)
 
             elif ProcessDiameterMessage.is_valid_origin_realm_avp(avp, self.connection):
-                self.checklist_mandatory_avps += 1
+                mandatory_avps.add(ORIGIN_REALM_AVP_CODE)
 
             elif ProcessDiameterMessage.is_valid_host_ip_address_avp(avp, self.connection):
-                self.checklist_mandatory_avps += 1
+                mandatory_avps.add(HOST_IP_ADDRESS_AVP_CODE)
 
             elif ProcessDiameterMessage.is_valid_vendor_id_avp(avp, self.connection):
-                self.checklist_mandatory_avps += 1
+                mandatory_avps.add(VENDOR_ID_AVP_CODE)
 
             elif ProcessDiameterMessage.is_valid_product_name_avp(avp, self.connection):
-                self.checklist_mandatory_avps += 1
+                mandatory_avps.add(PRODUCT_NAME_AVP_CODE)
 
             elif ProcessDiameterMessage.is_valid_origin_state_id_avp(avp, self.connection):
                 self.checklist_optional_avps += 1
 
+        self.checklist_mandatory_avps = len(mandatory_avps)
 
         if (self.checklist_mandatory_avps == 5) and (self.checklist_optional_avps >= 0 and self.checklist_optional_avps <= 7):
             self.is_valid = True
@@ -347,28 +353,33 @@ class ProcessCapabilityExchange():
 
     def process_answer(self):
         ProcessDiameterMessage.process_answer_from_existing_pending_request(self.association, self.message)
+        #: Each mandatory AVP counts once, however often it occurs (see 
+        #: process_request).
+        mandatory_avps = set()
+
         for avp in self.message.avps:
             if ProcessDiameterMessage.is_valid_result_code_avp(avp):
-                self.checklist_mandatory_avps += 1
+                mandatory_avps.add(RESULT_CODE_AVP_CODE)
 
             if ProcessDiameterMessage.is_valid_origin_host_avp(avp, self.connection):
-                self.checklist_mandatory_avps += 1
+                mandatory_avps.add(ORIGIN_HOST_AVP_CODE)
 
             elif ProcessDiameterMessage.is_valid_origin_realm_avp(avp, self.connection):
-                self.checklist_mandatory_avps += 1
+                mandatory_avps.add(ORIGIN_REALM_AVP_CODE)
 
             elif ProcessDiameterMessage.is_valid_host_ip_address_avp(avp, self.connection):
-                self.checklist_mandatory_avps += 1
+                mandatory_avps.add(HOST_IP_ADDRESS_AVP_CODE)
 
             elif ProcessDiameterMessage.is_valid_vendor_id_avp(avp, self.connection):
-                self.checklist_mandatory_avps += 1
+                mandatory_avps.add(VENDOR_ID_AVP_CODE)
 
             elif ProcessDiameterMessage.is_valid_product_name_avp(avp, self.connection):
-                self.checklist_mandatory_avps += 1
+                mandatory_avps.add(PRODUCT_NAME_AVP_CODE)
 
             elif ProcessDiameterMessage.is_valid_origin_state_id_avp(avp, self.connection):
                 self.checklist_optional_avps += 1
 
+        self.checklist_mandatory_avps = len(mandatory_avps)
 
         if (self.checklist_mandatory_avps == 6) and (self.checklist_optional_avps >= 0 or self.checklist_optional_avps <= 7):
             self.is_valid = True
